@@ -100,6 +100,7 @@ package tcplistener
 // Flush (which keeps the partial last line), never FlushAll, and is followed by the sink's Flush; FlushAll happens
 // exactly once, when the connection ends, and the sink is flushed after it (ghost event clock fevent).
 //@ ghost var fevent int
+//@ ghost var lastpeek bool
 //@ ghost var lastflushall int
 //@ ghost var lastsinkflush int
 //@ extern func (s base.MessageReceiverSink) Flush()
@@ -108,11 +109,13 @@ package tcplistener
 //@   ghostset fevent := fevent + 1
 //@   ghostset lastsinkflush := fevent + 1
 //@   ghostset lastflushall := lastflushall
+//@   ghostset lastpeek := lastpeek
 //@ extern func (s base.MessageReceiverSink) Close()
 //@   modifies everything
 //@   ghostset fevent := fevent
 //@   ghostset lastsinkflush := lastsinkflush
 //@   ghostset lastflushall := lastflushall
+//@   ghostset lastpeek := lastpeek
 // (set-up helpers: trusted, they only build objects)
 //@ func (listener *tcpLineListener) createConnectionReader(connLogger logger.Logger, conn *net.TCPConn) *util.NetConnWrapper
 //@   trusted
@@ -126,11 +129,20 @@ package tcplistener
 //@   trusted
 //@   modifies nothing
 //@   ensures result != nil
+// The socket is closed by the closer goroutine alone, on the stop request or when the connection task signals it: a task that
+// ends for any other reason than a close caused by the stop request must signal it, or socket and goroutine stay behind (C07:
+// at the descriptor limit the listener stops accepting). lastpeek: ghost - the last answer of stopRequest.Peek().
+//@ extern func (a channels.Awaitable) Peek() bool
+//@   modifies lastpeek
+//@   ensures lastpeek == result
 //@ func (listener *tcpLineListener) runConnection(connLogger logger.Logger, conn *net.TCPConn, clientNumber base.ClientNumber)
-//@   property C08 C01
+//@   property C08 C01 C07
 //@   flag nosafety noinfer
 //@   requires listener != nil
+//@   define   !lastpeek
 //@   modifies everything
+//@   ensures[C07:connection-is-released-unless-closed-by-the-stop-request] ncalls("channels.SignalAwaitable.Signal") == old(ncalls("channels.SignalAwaitable.Signal")) + 1 || lastpeek
+//@   loop 1: step[the-deadline-that-caused-a-flush-is-remembered] readErr == nil && ncalls("tcplistener.multiLineReader.Flush") > prev(ncalls("tcplistener.multiLineReader.Flush")) ==> instant(prevDeadline) == instant(connReader.readDeadline)
 //@   ensures[final-flush-all-then-sink-flush] ncalls("tcplistener.multiLineReader.FlushAll") == old(ncalls("tcplistener.multiLineReader.FlushAll")) + 1 && lastsinkflush > old(fevent)
 //@   loop 1: invariant ncalls("tcplistener.multiLineReader.FlushAll") == old(ncalls("tcplistener.multiLineReader.FlushAll")) && fevent >= old(fevent)
 //@   loop 1: step[a-flush-while-the-connection-lives-keeps-the-partial-line] ncalls("tcplistener.multiLineReader.FlushAll") == prev(ncalls("tcplistener.multiLineReader.FlushAll"))
